@@ -733,9 +733,9 @@ func genOp(t *rapid.T) op {
 
 func TestCheckHistories(t *testing.T) {
 	s := harness.NewSub("random-histories",
-		"operation lists of 1..25 steps (for a quarter of them the views are read after every step by 6 goroutines at the same time, and every reader must see what the fresh decode shows) over a random referentially closed family graph (<= 5 people, <= 3 families, decoded from text): 21 edit operations (AddNode/DeleteNode/SetNodes on arbitrary nodes, AddIndividual, AddFamily, AddFamilyWithHusbandAndWife, SetHusband/SetWife incl. nil, SetHusbandPointer/SetWifePointer, AddChild, Document.DeleteNode/AddNode, AddName/Add*Date/SetSex), 5 read operations that warm caches, 10 read-only operations (Warnings, String, Compare, SurroundingSimilarity, Similarity, CompareNodes+Sort, DeepCopy and every filter of the library - directly and through FilterFlags - into another document, in-memory publish, queries); a third of the start documents hold somebody with the same NAME twice; during a fifth of the histories another goroutine is in the middle of decoding an unrelated stream; after every edit and read-only step all views (NodesWithTag for every node x 11 tags, Individuals, Families, NodeByPointer for every pointer ever seen, per individual Names/Sex/Births/Baptisms/Deaths/Burials/AllEvents/UniqueIdentifiers/Families/Spouses/Parents/Children/String, per family Husband/Wife/their individuals/Children/the individuals and parents of the children/String) are compared with a fresh decode of Document.String(); read-only steps must leave the text unchanged; non-trivial = an edit that follows a read of the views")
+		"operation lists of 1..25 steps (for a quarter of them the views are read after every step by 6 goroutines at the same time, and every reader must see what the fresh decode shows) over a random referentially closed family graph (<= 5 people, <= 3 families, one in 120 with 20..40 people; decoded from text): 21 edit operations (AddNode/DeleteNode/SetNodes on arbitrary nodes, AddIndividual, AddFamily, AddFamilyWithHusbandAndWife, SetHusband/SetWife incl. nil, SetHusbandPointer/SetWifePointer, AddChild, Document.DeleteNode/AddNode, AddName/Add*Date/SetSex), 5 read operations that warm caches, 10 read-only operations (Warnings, String, Compare, SurroundingSimilarity, Similarity, CompareNodes+Sort, DeepCopy and every filter of the library - directly and through FilterFlags - into another document, in-memory publish, queries); a third of the start documents hold somebody with the same NAME twice; during a fifth of the histories another goroutine is in the middle of decoding an unrelated stream; after every edit and read-only step all views (NodesWithTag for every node x 11 tags, Individuals, Families, NodeByPointer for every pointer ever seen, per individual Names/Sex/Births/Baptisms/Deaths/Burials/AllEvents/UniqueIdentifiers/Families/Spouses/Parents/Children/String, per family Husband/Wife/their individuals/Children/the individuals and parents of the children/String) are compared with a fresh decode of Document.String(); read-only steps must leave the text unchanged; non-trivial = an edit that follows a read of the views")
 	s.Rapid(t, harness.Share(harness.Pick(12000, 300000)), 130, func(rt *rapid.T) {
-		h := history{Start: gen.Graph(gen.GraphOpts{MaxPeople: 5, MaxFamilies: 3, UIDs: true, Sources: true}).Draw(rt, "start")}
+		h := history{Start: gen.Graph(gen.GraphOpts{MaxPeople: 5, MaxFamilies: 3, UIDs: true, Sources: true, Big: 120, BigLo: 20, BigHi: 40}).Draw(rt, "start")}
 		if len(h.Start.People) > 0 && rapid.IntRange(0, 2).Draw(rt, "duplicateName") == 0 {
 			// somebody has the same NAME twice (and lines after it): what the duplicate-name filter looks for
 			p := h.Start.People[rapid.IntRange(0, len(h.Start.People)-1).Draw(rt, "dupOf")]
@@ -754,8 +754,11 @@ func TestCheckHistories(t *testing.T) {
 		if h.Parallel {
 			res.classes = append(res.classes, "parallel-readers-after-every-step")
 		}
+		if h.Start.IsBig() {
+			res.classes = append(res.classes, "big:>=20-people")
+		}
 		s.Eval(harness.JSON(h), res.editAfterRead, dedupe(res.classes)...)
-		if res.editAfterRead {
+		if res.editAfterRead && !h.Start.IsBig() {
 			s.MaybeSample(h)
 		}
 		if fl != nil && s.Report(h, fl) {
